@@ -4,6 +4,7 @@ import (
 	_ "a0quiet"
 	"io"
 	"os"
+	"strings"
 	"testing"
 
 	"github.com/google/logger"
@@ -18,7 +19,30 @@ func TestMain(m *testing.M) {
 		logger.SetLevel(2)
 	}
 	gen.SetProperty(os.Getenv("VERIF_PROP"))
+	// The process environment is an input too. (1) The repository's go.mod says "go 1.20": programs built from it (the
+	// check tool) run with the x509negativeserial=1 default of that language version, i.e. certificates with a negative
+	// serial number parse; the harness module asks for the same, so that such certificates reach the library's own code.
+	// (2) The machine's certificate store (SSL_CERT_FILE) holds the harness's own root CAs and nothing else: a library
+	// that ever consults the system store instead of the caller's pool or the embedded Intel root shows.
+	if gd := os.Getenv("GODEBUG"); !strings.Contains(gd, "x509negativeserial") {
+		_ = os.Setenv("GODEBUG", strings.TrimPrefix(gd+",x509negativeserial=1", ","))
+	}
+	storeFile := ""
+	if os.Getenv("VERIF_KEEP_SSL_CERT_FILE") == "" {
+		if f, err := os.CreateTemp(gen.VerifDir()+"/.build", "system-roots-*.pem"); err == nil {
+			for _, seed := range append(append([]string{}, gen.PKISeeds...), "pki-Z", "pki-decoy", "pki-c18-other") {
+				_, _ = f.Write(gen.NewPKI(gen.PKISpec{Seed: seed}).Root.PEM)
+			}
+			_ = f.Close()
+			storeFile = f.Name()
+			_ = os.Setenv("SSL_CERT_FILE", storeFile)
+			_ = os.Setenv("SSL_CERT_DIR", "/nonexistent-verif-cert-dir")
+		}
+	}
 	code := m.Run()
+	if storeFile != "" {
+		_ = os.Remove(storeFile)
+	}
 	if gen.AsyncFailed() && code == 0 {
 		code = 1
 	}
